@@ -12,7 +12,7 @@ package replayfilter
 //   every list element carries an *entry that points back to it and is filed in the map under its digest;
 //   every map entry is non-nil, filed under its own digest, and sits in the window;
 //   map size == list length <= 102400.
-//@ pred entAt(f, p) := gref(f.fifo, p, "*list.Element") != nil && allocated(gref(f.fifo, p, "*list.Element")) && allocated(gref(f.fifo, p, "*list.Element").Value) && gref(f.fifo, p, "*list.Element").pos == p && gref(f.fifo, p, "*list.Element").owner == f.fifo
+//@ pred entAt(f, p) := gref(f.fifo, p, "*list.Element") != nil && allocated(gref(f.fifo, p, "*list.Element")) && whole(gref(f.fifo, p, "*list.Element")) && allocated(gref(f.fifo, p, "*list.Element").Value) && gref(f.fifo, p, "*list.Element").pos == p && gref(f.fifo, p, "*list.Element").owner == f.fifo
 //@     && typeis(gref(f.fifo, p, "*list.Element").Value, "*replayfilter.entry") && payload(gref(f.fifo, p, "*list.Element").Value) != nil
 //@     && gref(f.fifo, p, "*list.Element").Value.(*entry).element == gref(f.fifo, p, "*list.Element")
 //@     && maphas(f.filter, gref(f.fifo, p, "*list.Element").Value.(*entry).digest) && f.filter[gref(f.fifo, p, "*list.Element").Value.(*entry).digest] == gref(f.fifo, p, "*list.Element").Value.(*entry)
